@@ -15,16 +15,16 @@ import (
 
 // Ctx is what a rule sees.
 type Ctx struct {
-	termCache     map[*ssa.Function]*termSum
-	fieldTypes    map[*types.Var][]types.Type
-	fieldTypesTop map[*types.Var]bool
-	M             *core.Module // the SDK module (schema, atp, plugin)
-	dispatchMemo  map[*ssa.Function]string
-	msgIsErrorText bool // set by onlyMsg: the accumulated text reached the message of a returned error (not a panic or a log line)
-	Gen           *core.Module // the code generator module (nil unless the property needs it)
-	R             *core.Report
-	Tier          string
-	Prop          string
+	termCache      map[*ssa.Function]*termSum
+	fieldTypes     map[*types.Var][]types.Type
+	fieldTypesTop  map[*types.Var]bool
+	M              *core.Module // the SDK module (schema, atp, plugin)
+	dispatchMemo   map[*ssa.Function]string
+	msgIsErrorText bool         // set by onlyMsg: the accumulated text reached the message of a returned error (not a panic or a log line)
+	Gen            *core.Module // the code generator module (nil unless the property needs it)
+	R              *core.Report
+	Tier           string
+	Prop           string
 
 	lockCache  *lockInfo
 	rolesCache *atpRoles
